@@ -1,18 +1,32 @@
 #!/usr/bin/env python3
+"""setup_cmd: build, offline, everything the registered checks need: the Coq
+cone (full .vo) of every props/Cxx.json and its harness binary against /repo.
+A property whose cone/binary fails to build is reported here and will fail in
+its own check (exit 2); it does not stop the others from being built."""
 import os, sys, json, glob
 sys.path.insert(0, os.path.dirname(os.path.abspath(__file__)))
 import check as C
 repo = os.environ.get("VERIF_REPO", "/repo")
-# translators first (Generated/*.v are not committed)
-for f in sorted(glob.glob(os.path.join(C.VERIF, "props", "C*.json"))):
-    cfg = json.load(open(f))
+cfgs = [json.load(open(f)) for f in sorted(glob.glob(os.path.join(C.VERIF, "props", "C*.json")))]
+bad = []
+for cfg in cfgs:
     for (t, rc, out) in C.run_translators(cfg, repo):
         if rc != 0:
-            print("translator %s failed:\n%s" % (t, out)); sys.exit(1)
-rc, out = C.coq_build([], timeout=7200)
+            print("translator %s failed:\n%s" % (t, out)); bad.append(cfg["id"])
+targets = []
+for cfg in cfgs:
+    targets += ["theories/%s/Props.vo" % cfg["coq_dir"], "theories/%s/Run.vo" % cfg["coq_dir"]]
+rc, out = C.coq_build(targets, timeout=7200)
 print(out[-3000:])
 if rc != 0:
-    sys.exit(1)
-rc, out, _ = C.cargo_build(repo, [], timeout=7200)
+    bad.append("coq")
+rc, out, _ = C.cargo_build(repo, sorted({c["bin"] for c in cfgs}), timeout=7200)
 print(out[-3000:])
-sys.exit(0 if rc == 0 else 1)
+if rc != 0:
+    # fall back to one binary at a time so one broken harness does not take the others down
+    for c in cfgs:
+        rc1, out1, _ = C.cargo_build(repo, [c["bin"]], timeout=7200)
+        if rc1 != 0:
+            bad.append(c["id"]); print(out1[-1500:])
+print("setup done; problems: %s" % (bad or "none"))
+sys.exit(0)
